@@ -227,6 +227,64 @@ def _parsers(ctx, d, f, txt):
         ctx.corr_break("I4.pycryptosat_output", {"text": txt}, py["ok"]["stdout"], "s SATISFIABLE\\nv 1 -2 0\\n")
 
 
+class _FakeCms:
+    """Stands in for pycmsgen.Solver / pyunigen.Sampler: returns scripted solutions."""
+    solution = None
+    samples = None
+
+    def __init__(self, *a, **k):
+        pass
+
+    def add_clause(self, cl):
+        pass
+
+    def solve(self):
+        return True, _FakeCms.solution
+
+    def sample(self, num=1, sampling_set=None):
+        return 1, 1, _FakeCms.samples
+
+
+def corr_sample_lines(ctx):
+    """call_cmsgen_python / call_unigen_python format solver results into `v …` lines."""
+    d = ctx.drv()
+    rng = ctx.rng
+    ctx.rules.append("I4-samples: call_cmsgen_python / call_unigen_python with the solver libraries stubbed to return "
+                     "scripted solutions: the text they hand to build_solution vs SPModel.Text.cmsgenSampleLine / "
+                     "unigenSampleLine (sampling set = 1..support with support up to and including the last variable)")
+    real_cms, real_uni = UG.pycmsgen, UG.pyunigen
+    real_sat = getattr(UG, "pycryptosat", None)
+    with _Tmp() as tmp:
+        try:
+            UG.pycmsgen = types.SimpleNamespace(Solver=_FakeCms)
+            UG.pyunigen = types.SimpleNamespace(Sampler=_FakeCms)
+            for it in range(120 if ctx.big() else 40):
+                nv = rng.randint(1, 8)
+                support = rng.choice([nv, nv, rng.randint(0, nv), nv + rng.randint(0, 2)])
+                vals = [[v, -v] for v in range(1, nv + 1)]        # satisfiable, mentions every variable
+                f = tmp / "s.cnf"
+                f.write_text(CNF(vals).as_unigen_string(nv, support_set_length=support))
+                sol = [None] + [rng.random() < 0.5 for _ in range(nv)]
+                _FakeCms.solution = tuple(sol)
+                txt = UG.call_cmsgen_python(f, 1)
+                sampling = list(range(1, support + 1)) if support > 0 else list(range(1, nv + 1))
+                want = d.ask({"op": "text", "m": "cmsgen_line", "solution": [False] + [bool(x) for x in sol[1:]],
+                              "sampling": sampling})["ok"] + "\n"
+                ctx.count("I4.cmsgen_line")
+                ctx.case(("I4.cms", tuple(sol[1:]), support), True)
+                if txt != want:
+                    ctx.corr_break("I4.call_cmsgen_python", {"solution": sol[1:], "support": support, "nv": nv}, txt, want)
+                sample = [(v if rng.random() < 0.5 else -v) for v in sampling]
+                _FakeCms.samples = [sample]
+                txt = UG.call_unigen_python(f, 1)
+                want = d.ask({"op": "text", "m": "unigen_line", "sample": sample})["ok"] + "\n"
+                ctx.count("I4.unigen_line")
+                if txt != want:
+                    ctx.corr_break("I4.call_unigen_python", {"sample": sample}, txt, want)
+        finally:
+            UG.pycmsgen, UG.pyunigen = real_cms, real_uni
+
+
 def gen_reqs(rng, nv):
     reqs = []
     for _ in range(rng.randint(0, 3)):
@@ -410,6 +468,20 @@ def c27_case(vals, nv, support, tmp, rounds=3):
     return None
 
 
+def c27_sampler_case(vals, nv, support, use_cmsgen):
+    import contextlib, io
+    with contextlib.redirect_stdout(io.StringIO()), contextlib.redirect_stderr(io.StringIO()):
+        sols = SU.sample_uniform(3, CNF(vals), nv, support, [], use_docker=False, use_cmsgen=use_cmsgen)
+    for s in sols:
+        a = list(s.assignment)
+        if [abs(l) for l in a] != list(range(1, support + 1)):
+            return "%s sample %s is not an assignment of the sampling set 1..%d" % ("CMSGen" if use_cmsgen else "UniGen", a, support)
+        m, _ = models_extending(vals, max(nv, support), {abs(l): l > 0 for l in a}, limit=1)
+        if m == 0:
+            return "%s sample %s cannot be extended to a model of %s" % ("CMSGen" if use_cmsgen else "UniGen", a, vals)
+    return None
+
+
 def oracle_c27(ctx, budget_s):
     rng = ctx.rng
     ctx.rules.append("C27 oracle: random CNFs over <= 8 variables written with combine_and_save_cnf: header counts, "
@@ -432,3 +504,16 @@ def oracle_c27(ctx, budget_s):
             if r:
                 ctx.fail("C27: " + r, {"vals": vals, "nv": nv, "support": support})
                 return
+            if n % 3 == 0:
+                # the sampler wrappers, with the sampling set reaching the last variable
+                sup2 = used if n % 2 else support
+                models, _ = models_extending(vals, used, {}, limit=1)
+                if models:
+                    for cms in (True, False):
+                        if not cms and n % 9:
+                            continue
+                        r = c27_sampler_case(vals, used, sup2, cms)
+                        ctx.count("C27.oracle.sampler." + ("cmsgen" if cms else "unigen"))
+                        if r:
+                            ctx.fail("C27: " + r, {"vals": vals, "nv": used, "support": sup2, "sampler": "cmsgen" if cms else "unigen"})
+                            return
